@@ -6,6 +6,7 @@ From GeosV.Lib Require Import KernelDefs Kernel KernelSeg KernelRing KernelPoly.
 From GeosV.C07 Require Import CCWDefs CCWProofs GenTie FloatLink.
 From GeosV.Lib Require GenPreludeZ GenPreludeF.
 From GeosV.C07 Require PreludeLI.
+From GeosV.C07 Require RunDefs.    (* entry points of the extracted models: kept in the dependency cone so that they are rebuilt with the generated units *)
 From GeosV.Gen Require K_countSegment K_getLocation K_envPtZ K_envSegZ K_collinearZ K_intersectZ K_filterF K_orientationIndexF.
 Import ListNotations.
 Local Open Scope Z_scope.
